@@ -20,6 +20,7 @@ import (
 //   spec.kids[]        {apiVersion, kind, name, ns?, value, metaExtra?{...copied into metadata}, status?(copied as the child's status)}
 //   spec.statusExtra   copied verbatim into the returned status
 //   spec.rawStatus     returned as the status as-is; spec.nullStatus / spec.omitStatus: null / no status
+//   spec.resyncAfter   number: answered as resyncAfterSeconds
 //   spec.finalize      "all" (default: drop everything at once) | "step" (one child per call)
 
 // KidSpec builds one spec.kids entry.
@@ -142,6 +143,10 @@ func Expand(req Obj, rootField, childrenField, responseChildrenField string) Obj
 		}
 	}
 	resp := Obj{"status": status}
+	if ra, ok := spec["resyncAfter"]; ok {
+		// a polling hook: asks to be called again after so many seconds (every answer, every revision)
+		resp["resyncAfterSeconds"] = ra
+	}
 	if raw, ok := spec["rawStatus"]; ok {
 		resp["status"] = DeepCopyValue(raw) // exactly this status, whatever it is
 	}
@@ -181,6 +186,13 @@ func Expand(req Obj, rootField, childrenField, responseChildrenField string) Obj
 					}
 				}
 			}
+		}
+		if fin == "eager" {
+			// nothing to wait for: no children desired any more and finalized right away, whatever
+			// is still observed
+			resp[responseChildrenField] = children
+			resp["finalized"] = true
+			return resp
 		}
 		if fin == "hold" {
 			// finalization that does not finish yet: everything stays desired, never finalized
